@@ -55,6 +55,21 @@ def main(argv=None):
             print("now: obligation not found on the current tree")
             return 2
         return 0
+    if a.cmd == "baseline" and a.prop == "libcalls":
+        from .loader import Package
+        from .paths import Analysis
+        from .rules import common
+        pkg = Package(a.root)
+        ctx = report.Ctx("C00", "quick", pkg, Analysis(pkg))
+        out = {}
+        for qn in sorted(pkg.functions):
+            c = common.library_calls(ctx, qn)
+            if c:
+                out[qn] = sorted(c)
+        p = report.VERIF / "baseline" / "libcalls.json"
+        p.write_text(json.dumps(out, indent=0))
+        print("wrote", p, len(out), "functions,", sum(len(v) for v in out.values()), "bound library parameters")
+        return 0
     if a.cmd == "baseline" and a.prop == "functions":
         from .loader import Package
         pkg = Package(a.root)
